@@ -304,14 +304,14 @@ class Frame(Widget, WidgetContainerMixin, typing.Generic[BodyWidget, HeaderWidge
             __slots__ = ()
 
             def __len__(inner_self) -> int:
-                return len(inner_self.keys())
+                return len(self._contents_keys())
 
             __getitem__ = self._contents__getitem__
             __setitem__ = self._contents__setitem__
             __delitem__ = self._contents__delitem__
 
             def __iter__(inner_self) -> Iterator[str]:
-                yield from inner_self.keys()
+                yield from self._contents_keys()
 
             def __repr__(inner_self) -> str:
                 return f"<{inner_self.__class__.__name__}({dict(inner_self)}) for {self}>"
